@@ -32,6 +32,7 @@ struct Files {
     empty: String,
     fakezip: String,
     realzip: String,
+    nodltzip: String, // a zip archive without any DLT file
     missing: String,
     dir: String,
 }
@@ -63,6 +64,14 @@ fn concretise(verb: &str, arg: &str, tk: Option<&str>, f: &Files, big: bool) -> 
             "ok_onepass" => j(json!({"collect":"one_pass_streams","files":[file]})),
             "ok_plugins" => j(json!({"files":[file],"plugins":[{"name":"FileTransfer"}]})),
             "ok_zip" => j(json!({"files":[f.realzip]})),
+            "zip_glob_all" => j(json!({"files":[format!("{}!/**/*.dlt", f.realzip)]})),
+            "zip_glob_some" => j(json!({"files":[format!("{}!/logs/sub/*.dlt", f.realzip)]})),
+            "zip_glob_none" => j(json!({"files":[format!("{}!/no_such_dir/*.dlt", f.realzip)]})),
+            "zip_nodlt" => j(json!({"files":[f.nodltzip]})),
+            "zip_nodlt_glob" => j(json!({"files":[format!("{}!/*.dlt", f.nodltzip)]})),
+            "fakezip" => j(json!({"files":[f.fakezip]})),
+            "nonarchive_bang" => j(json!({"files":[format!("{}!/x.dlt", f.small)]})),
+            "missingzip_bang" => j(json!({"files":[format!("{}.zip!/*.dlt", f.missing)]})),
             "ok_huge" => j(json!({"files":[f.huge]})),
             "ok_huge_onepass" => j(json!({"collect":"one_pass_streams","files":[f.huge]})),
             "noarg" => String::new(),
@@ -409,8 +418,8 @@ fn parse_scn(v: &Value) -> Vec<Step> {
         .collect()
 }
 
-const OPEN_OK: [&str; 6] = ["ok", "ok_sort", "ok_nocollect", "ok_onepass", "ok_plugins", "ok_zip"];
-const OPEN_BAD: [&str; 11] = ["noarg", "badjson", "nofiles", "emptyfiles", "fileswrongtype", "filesnonstring", "missingfile", "nodlt", "badcollect", "pluginswrongtype", "pluginnotobj"];
+const OPEN_OK: [&str; 12] = ["ok", "ok_sort", "ok_nocollect", "ok_onepass", "ok_plugins", "ok_zip", "zip_glob_all", "zip_glob_some", "zip_glob_none", "zip_nodlt", "zip_nodlt_glob", "fakezip"];
+const OPEN_BAD: [&str; 13] = ["nonarchive_bang", "missingzip_bang", "noarg", "badjson", "nofiles", "emptyfiles", "fileswrongtype", "filesnonstring", "missingfile", "nodlt", "badcollect", "pluginswrongtype", "pluginnotobj"];
 const STREAM_OK: [&str; 6] = ["ok", "ok_filt", "ok_text", "ok_onepass", "ok_defaults", "ok_emptywin"];
 const STREAM_BAD: [&str; 6] = ["noarg", "badjson", "badwindow", "windowwrongtype", "filterswrongtype", "badfilter"];
 const CHANGE: [&str; 6] = ["ok", "ok_empty", "ok_garbage", "ok_beyond", "noarg", "nocomma"];
@@ -517,6 +526,18 @@ fn scripted() -> Vec<CaseSpec> {
         // one-pass mode: a stream created / a window changed after messages were drained (poll loop)
         mk(false, "awaited", vec![step("open", "ok_onepass", ""), step("resume", "", ""), step("wait", "", ""), step("stream", "ok_onepass", ""), step("fs", "stat_ok", ""), step("fs", "stat_ok", ""), step("fs", "stat_ok", ""), step("close", "", "")]),
         mk(false, "awaited", vec![step("open", "ok_onepass", ""), step("stream", "ok_onepass", ""), step("resume", "", ""), step("wait", "", ""), step("stream_change_window", "ok", "h1"), step("fs", "stat_ok", ""), step("fs", "stat_ok", ""), step("fs", "stat_ok", ""), step("close", "", "")]),
+        // archive opens (extraction runs after the reply): every glob / content variant, idle until the extraction has finished,
+        // then the session must still work: pause/stream/resume/close, and a new open succeeds
+        mk(false, "awaited", vec![step("open", "ok_zip", ""), step("sleep", "400", ""), step("unknown", "frobnicate", ""), step("sleep", "300", ""), step("fs", "stat_ok", ""), step("pause", "", ""), step("stream", "ok", ""), step("resume", "", ""), step("sleep", "200", ""), step("stop", "", "h1"), step("close", "", ""), step("open", "ok", ""), step("close", "", "")]),
+        mk(false, "awaited", vec![step("open", "zip_glob_all", ""), step("sleep", "400", ""), step("unknown", "frobnicate", ""), step("sleep", "300", ""), step("fs", "stat_ok", ""), step("pause", "", ""), step("stream", "ok", ""), step("resume", "", ""), step("sleep", "200", ""), step("stop", "", "h1"), step("close", "", ""), step("open", "ok", ""), step("close", "", "")]),
+        mk(false, "awaited", vec![step("open", "zip_glob_some", ""), step("sleep", "400", ""), step("unknown", "frobnicate", ""), step("sleep", "300", ""), step("fs", "stat_ok", ""), step("pause", "", ""), step("stream", "ok", ""), step("resume", "", ""), step("sleep", "200", ""), step("stop", "", "h1"), step("close", "", ""), step("open", "ok", ""), step("close", "", "")]),
+        mk(false, "awaited", vec![step("open", "zip_glob_none", ""), step("sleep", "400", ""), step("unknown", "frobnicate", ""), step("sleep", "300", ""), step("fs", "stat_ok", ""), step("pause", "", ""), step("stream", "ok", ""), step("resume", "", ""), step("sleep", "200", ""), step("stop", "", "h1"), step("close", "", ""), step("open", "ok", ""), step("close", "", "")]),
+        mk(false, "awaited", vec![step("open", "zip_nodlt", ""), step("sleep", "400", ""), step("unknown", "frobnicate", ""), step("sleep", "300", ""), step("fs", "stat_ok", ""), step("pause", "", ""), step("stream", "ok", ""), step("resume", "", ""), step("sleep", "200", ""), step("stop", "", "h1"), step("close", "", ""), step("open", "ok", ""), step("close", "", "")]),
+        mk(false, "awaited", vec![step("open", "zip_nodlt_glob", ""), step("sleep", "400", ""), step("unknown", "frobnicate", ""), step("sleep", "300", ""), step("fs", "stat_ok", ""), step("pause", "", ""), step("stream", "ok", ""), step("resume", "", ""), step("sleep", "200", ""), step("stop", "", "h1"), step("close", "", ""), step("open", "ok", ""), step("close", "", "")]),
+        mk(false, "awaited", vec![step("open", "fakezip", ""), step("sleep", "400", ""), step("unknown", "frobnicate", ""), step("sleep", "300", ""), step("fs", "stat_ok", ""), step("pause", "", ""), step("stream", "ok", ""), step("resume", "", ""), step("sleep", "200", ""), step("stop", "", "h1"), step("close", "", ""), step("open", "ok", ""), step("close", "", "")]),
+        mk(false, "awaited", vec![step("open", "nonarchive_bang", ""), step("sleep", "400", ""), step("unknown", "frobnicate", ""), step("sleep", "300", ""), step("fs", "stat_ok", ""), step("pause", "", ""), step("stream", "ok", ""), step("resume", "", ""), step("sleep", "200", ""), step("stop", "", "h1"), step("close", "", ""), step("open", "ok", ""), step("close", "", "")]),
+        mk(false, "awaited", vec![step("open", "missingzip_bang", ""), step("sleep", "400", ""), step("unknown", "frobnicate", ""), step("sleep", "300", ""), step("fs", "stat_ok", ""), step("pause", "", ""), step("stream", "ok", ""), step("resume", "", ""), step("sleep", "200", ""), step("stop", "", "h1"), step("close", "", ""), step("open", "ok", ""), step("close", "", "")]),
+        mk(false, "pipelined", vec![step("open", "zip_glob_none", ""), step("pause", "", ""), step("stream", "ok_filt", ""), step("close", "", ""), step("open", "zip_nodlt", ""), step("sleep", "300", ""), step("close", "", ""), step("open", "ok", ""), step("close", "", "")]),
         // close while parsing (big file, throttled parser), then a new open must succeed; also pipelined
         mk(true, "awaited", vec![step("open", "ok", ""), step("stream", "ok_filt", ""), step("close", "", ""), step("open", "ok", ""), step("stream", "ok", ""), step("close", "", ""), step("open", "ok_sort", ""), step("close", "", ""), step("open", "ok_zip", ""), step("close", "", ""), step("open", "ok", "")]),
         mk(true, "pipelined", vec![step("open", "ok", ""), step("stream", "ok_filt", ""), step("close", "", ""), step("open", "ok_sort", ""), step("query", "ok_filt", ""), step("close", "", ""), step("open", "ok_onepass", ""), step("close", "", ""), step("open", "ok_zip", ""), step("close", "", ""), step("open", "ok", ""), step("close", "", "")]),
@@ -577,6 +598,21 @@ fn make_files(work: &str, seed: u64, n_small: usize, n_big: usize, n_huge: usize
         let opt = zip::write::SimpleFileOptions::default().compression_method(zip::CompressionMethod::Stored);
         z.start_file("logs/small.dlt", opt).unwrap();
         z.write_all(&std::fs::read(&small).unwrap()).unwrap();
+        z.start_file("logs/sub/other.dlt", opt).unwrap();
+        z.write_all(&std::fs::read(&small).unwrap()).unwrap();
+        z.start_file("logs/sub/deeper/third.dlt", opt).unwrap();
+        z.write_all(&std::fs::read(&small).unwrap()).unwrap();
+        z.start_file("readme.txt", opt).unwrap();
+        z.write_all(b"no dlt content here\n").unwrap();
+        z.finish().unwrap();
+    }
+    let nodltzip = format!("{}/nodlt.zip", dir);
+    {
+        use std::io::Write;
+        let mut z = zip::ZipWriter::new(std::fs::File::create(&nodltzip).unwrap());
+        let opt = zip::write::SimpleFileOptions::default().compression_method(zip::CompressionMethod::Stored);
+        z.start_file("docs/readme.txt", opt).unwrap();
+        z.write_all(b"an archive without any dlt file\n").unwrap();
         z.finish().unwrap();
     }
     let huge = if n_huge > 0 {
@@ -586,7 +622,7 @@ fn make_files(work: &str, seed: u64, n_small: usize, n_big: usize, n_huge: usize
     } else {
         String::new()
     };
-    Files { small, big, huge, n_small: n_small as u64, n_big: n_big as u64, empty, fakezip, realzip, missing: format!("{}/does_not_exist.dlt", dir), dir }
+    Files { small, big, huge, n_small: n_small as u64, n_big: n_big as u64, empty, fakezip, realzip, nodltzip, missing: format!("{}/does_not_exist.dlt", dir), dir }
 }
 
 fn main() {
